@@ -81,12 +81,34 @@ def _era(ev):
     return "inputs-same-era"
 
 
+def _celltype_changed(ev):
+    """does one side change the cell_type of a cell that keeps its id (convert code <-> markdown)?"""
+    from .c02 import safe_dec
+
+    def types(nb):
+        try:
+            return {c.get("id"): c.get("cell_type") for c in safe_dec(nb)["cells"] if c.get("id") is not None}
+        except Exception:
+            return {}
+    b = types(ev["base"])
+    for side in ("local", "remote"):
+        t = types(ev[side])
+        if any(k in b and b[k] != v for k, v in t.items()):
+            return True
+    return False
+
+
 def classify_valid(chk, ev, run_, clauses, info):
     if "ValidNb" not in clauses:
         return
     rep = mergefam.replay_obj(ev, run_, clauses, info)
     strat = run_["name"].split("|")[1]
-    chk.violation("merged-invalid:%s:%s" % (_msg_class(run_.get("invalid_msg", "?")), _era(ev)),
+    msg = run_.get("invalid_msg", "?")
+    if msg.startswith("Additional properties are not allowed") and _celltype_changed(ev):
+        chk.violation("merged-invalid:additional-properties:celltype-changed-on-one-side",
+                      "merged cell mixes keys of two cell types (strategy %s): %s" % (strat, msg), rep)
+        return
+    chk.violation("merged-invalid:%s:%s" % (_msg_class(msg), _era(ev)),
                   "merged notebook fails the schema of its declared minor (strategy %s): %s"
                   % (strat, run_.get("invalid_msg")), rep)
 
